@@ -48,7 +48,7 @@ def simulate_sensitivity_maps(
     for ii in range(len(shape)):
         cov[ii] = var
     cov = np.diag(cov)
-    if seed:
+    if seed is not None:
         np.random.seed(seed)
     offset = np.random.uniform(0, 2 * np.pi, 1)
     for coil_idx in range(num_coils):
